@@ -39,7 +39,7 @@ PROPS = {
         rule='live collision grid: local id <,=,> remote id x AS <,> x which connection completes its OPEN exchange first x Established-before-the-other, plus the forced collision window (manager held before the select while the other FSM requests Established / fails); every trace checked by L1 inclusion and all monitors'),
     'C10': dict(title='Shutdown from any state is prompt, complete, race-free and leak-free', live=True, lean=['CoreBGP.Props.C10', 'CoreBGP.Props.C10Own', 'CoreBGP.Props.C20Lock', 'CoreBGP.Props.C20Life'], race_search=['C10', 'C11', 'C07', 'C04'],
         rule='Close / DeletePeer at every point of every connection script (idle, before Serve, OpenSent, OpenConfirm, Established, during collision, damped, with active writers, two peers, the forced dial-completed-while-closing window), both directions'),
-    'C09': dict(title='State-dependent message handling follows RFC 4271 8.2.2 / RFC 6608', live=True, lean=['CoreBGP.Props.C09', 'CoreBGP.Props.C09Tie'],
+    'C09': dict(title='State-dependent message handling follows RFC 4271 8.2.2 / RFC 6608', live=True, lean=['CoreBGP.Props.C09', 'CoreBGP.Props.C09Tie', 'CoreBGP.Props.C09Switch'],
         rule='exhaustive live table: state {OpenSent, OpenConfirm, Established} x stimulus {OPEN, UPDATE, KEEPALIVE, NOTIFICATION Cease/other/hold/undecodable, FIN, RST} x direction {out, in}; each trace must be reproduced by the L1 session model and pass all monitors'),
     'C03': dict(title='Inbound UPDATEs reach the handler exactly once, in order, byte-exact', live=True, lean=['CoreBGP.Props.C03'],
         rule='live sessions with seeded random UPDATE/KEEPALIVE sequences (bodies 0..4077) cut into random TCP writes (1-byte writes, writes spanning several messages), handler recording arguments, handler veto at a random position; every trace reproduced by the L1 model (handler calls = sent bodies, in order) + aliasing monitor',
